@@ -13,14 +13,14 @@ use crate::runner::{hex, Ctx, Failure, PropDef, Verdict};
 use crate::simnet::app::*;
 use crate::simnet::exec::{shared, Exec, RunEnd, Shared, Spawner, Style};
 use crate::simnet::peer::{self, PeerOp, RawPeer};
-use crate::simnet::{Net, Side, SimConn};
+use crate::simnet::{Net, Side, SimConn, UNLIMITED};
 use crate::tape::{prf_bytes, Tape};
 
 pub static PROP: PropDef = PropDef {
     id: "C19",
     rule: "case = server with WebTransport enabled or not x the CONNECT request is the (j+1)-th request of the connection, j in {0,1,2,15,16,17} (session ids 0..68, crossing the 1->2 byte varint boundary; earlier requests are real, completed requests) x \
            peer-opened WebTransport bidi (0x41, session id, payload) and uni (0x54 in each varint form, session id, payload) streams whose bytes arrive in two steps cut at EVERY offset (so the header/payload boundary falls at every position, including header and payload in one chunk), with and without FIN, \
-           x server-opened bidi and uni streams with payloads x a datagram each way x read API (poll_data or AsyncRead with small buffers). oracle: session_id() == the CONNECT stream id; every server-opened stream starts with the type varint followed by that id (reference varints) and then exactly the payload; \
+           x server-opened bidi and uni streams with payloads, written under unlimited / zero / small send credit (the header is then taken a few bytes at a time) x a datagram each way x read API (poll_data or AsyncRead with small buffers). oracle: session_id() == the CONNECT stream id; every server-opened stream starts with the type varint followed by that id (reference varints) and then exactly the payload; \
            the SessionId attached to each accepted stream == the id on the wire; bytes read == bytes the peer wrote after the header, complete and in order; a stream whose header is complete is surfaced without needing further bytes; \
            with WebTransport disabled no WebTransport uni stream is surfaced; never a connection error. non-trivial = CONNECT stream id != 0 or header and payload sharing a chunk; distinct by (scenario, cuts)",
     assumptions: &["the client side is a scripted raw peer (h3-webtransport has no client)", "simulated transport, see C01"],
@@ -29,7 +29,7 @@ pub static PROP: PropDef = PropDef {
     run_tape,
     exhaustive: Some(exhaustive),
     run_direct: Some(run_direct),
-    min_classes: &[("nonzero_session", 2000), ("header_and_payload_one_chunk", 500), ("cut_inside_header", 1000), ("uni_surfaced", 2000), ("bidi_surfaced", 2000), ("wt_disabled_uni_hidden", 300), ("server_opened_checked", 2000), ("datagram_roundtrip", 1000)],
+    min_classes: &[("nonzero_session", 2000), ("header_and_payload_one_chunk", 500), ("cut_inside_header", 1000), ("uni_surfaced", 2000), ("bidi_surfaced", 2000), ("wt_disabled_uni_hidden", 300), ("server_opened_checked", 2000), ("server_header_taken_in_pieces", 500), ("datagram_roundtrip", 1000)],
     extra: None,
 };
 
@@ -53,6 +53,9 @@ pub struct Scn {
     pub async_read: Option<usize>,
     pub style: Style,
     pub datagrams: bool,
+    /// send credit every stream of the server starts with (more is granted by scheduler moves, a few bytes at a time under
+    /// the Tiny style): the WebTransport stream headers the server writes are then taken in pieces
+    pub credit: u64,
 }
 
 type Session = WebTransportSession<SimConn, Bytes>;
@@ -304,7 +307,7 @@ fn wt_header(p: &PeerWt) -> Vec<u8> {
 }
 
 fn scn_json(s: &Scn) -> Value {
-    json!({"j": s.j, "wt_enabled": s.wt_enabled, "async_read": s.async_read, "style": format!("{:?}", s.style), "datagrams": s.datagrams,
+    json!({"j": s.j, "wt_enabled": s.wt_enabled, "async_read": s.async_read, "style": format!("{:?}", s.style), "datagrams": s.datagrams, "credit": if s.credit == UNLIMITED { -1 } else { s.credit as i64 },
         "peer_streams": s.peer_streams.iter().map(|p| json!({"bidi": p.bidi, "type_form": p.type_form, "session": p.session, "payload": hex(&p.payload), "cut": p.cut, "fin": p.fin})).collect::<Vec<_>>(),
         "server_opens": s.server_opens.iter().map(|(b, p)| json!([b, hex(p)])).collect::<Vec<_>>()})
 }
@@ -314,6 +317,7 @@ pub fn run_scn(s: &Scn, sched: &[u16], ctx: &mut Ctx) -> Verdict {
     fastrand::seed(31);
     let net = Net::new();
     net.set_raw(Side::Client);
+    net.lock().default_credit[Side::Server.idx()] = s.credit;
     let o: Shared<Obs> = shared(Obs::default());
     let mut ex = Exec::new();
     let sp = ex.spawner.clone();
@@ -397,6 +401,11 @@ pub fn run_scn(s: &Scn, sched: &[u16], ctx: &mut Ctx) -> Verdict {
             return fail(format!("server-opened {} stream {qid} carries {} ; expected type, session id {connect_id}, payload: {}", if *bidi { "bidi" } else { "uni" }, hex(&w[..w.len().min(24)]), hex(&want[..want.len().min(24)])));
         }
         ctx.class("server_opened_checked");
+        let hdr = want.len() - payload.len();
+        let first = net.lock().pipes.get(&(*qid, Side::Server)).and_then(|p| p.accept_sizes.first().copied()).unwrap_or(0) as usize;
+        if first < hdr {
+            ctx.class("server_header_taken_in_pieces");
+        }
     }
     if obs.opened.len() != s.server_opens.len() {
         return fail(format!("{} of {} streams were opened", obs.opened.len(), s.server_opens.len()));
@@ -510,7 +519,7 @@ fn exhaustive(ctx: &mut Ctx, shard: usize, nshards: usize) -> Verdict {
                                 let mut p = p0.clone();
                                 p.cut = cut;
                                 p.fin = fin;
-                                let s = Scn { j, wt_enabled, peer_streams: vec![p], server_opens: vec![(bidi, b"srv".to_vec())], async_read: if cut % 2 == 0 { None } else { Some(3) }, style: if cut % 3 == 0 { Style::Tiny } else { Style::Eager }, datagrams: cut == 0 };
+                                let s = Scn { j, wt_enabled, peer_streams: vec![p], server_opens: vec![(bidi, b"srv".to_vec())], async_read: if cut % 2 == 0 { None } else { Some(3) }, style: if cut % 3 == 0 { Style::Tiny } else { Style::Eager }, datagrams: cut == 0, credit: if cut % 3 == 0 && fin { 0 } else { UNLIMITED } };
                                 run_scn(&s, &[], ctx)?;
                             }
                         }
@@ -558,7 +567,7 @@ fn run_tape(tape: &[u16], ctx: &mut Ctx) -> Verdict {
             (t.bool(), t.bulk(n))
         })
         .collect();
-    let s = Scn { j, wt_enabled: t.chance(4, 5), peer_streams, server_opens, async_read: if t.bool() { None } else { Some(*t.choose(&[1usize, 2, 7, 64, 4096])) }, style: [Style::Eager, Style::Tiny, Style::Random][t.pick(3)], datagrams: t.bool() };
+    let s = Scn { j, wt_enabled: t.chance(4, 5), peer_streams, server_opens, async_read: if t.bool() { None } else { Some(*t.choose(&[1usize, 2, 7, 64, 4096])) }, style: [Style::Eager, Style::Tiny, Style::Random][t.pick(3)], datagrams: t.bool(), credit: match t.pick(6) { 0 | 1 | 2 => UNLIMITED, 3 => 0, 4 => t.int(1, 12), _ => t.int(1, 2000) } };
     let sched: Vec<u16> = tape[t.position().min(tape.len())..].to_vec();
     run_scn(&s, &sched, ctx)
 }
@@ -576,6 +585,6 @@ fn run_direct(d: &Value, ctx: &mut Ctx) -> Verdict {
         _ => Style::Random,
     };
     let sched: Vec<u16> = d["sched"].as_array().map(|a| a.iter().map(|x| x.as_u64().unwrap_or(0) as u16).collect()).unwrap_or_default();
-    let s = Scn { j: sc["j"].as_u64().unwrap_or(0) as usize, wt_enabled: sc["wt_enabled"].as_bool().unwrap_or(true), peer_streams, server_opens, async_read: sc["async_read"].as_u64().map(|x| x as usize), style, datagrams: sc["datagrams"].as_bool().unwrap_or(false) };
+    let s = Scn { j: sc["j"].as_u64().unwrap_or(0) as usize, wt_enabled: sc["wt_enabled"].as_bool().unwrap_or(true), peer_streams, server_opens, async_read: sc["async_read"].as_u64().map(|x| x as usize), style, datagrams: sc["datagrams"].as_bool().unwrap_or(false), credit: sc["credit"].as_i64().map(|c| if c < 0 { UNLIMITED } else { c as u64 }).unwrap_or(UNLIMITED) };
     run_scn(&s, &sched, ctx)
 }
